@@ -9,7 +9,7 @@ def load_schema(ctx):
     return json.load(open(os.path.join(ctx.root, "work", "schema.json")))
 
 
-def patterns(r, L, exhaustive_upto, nrand, repo="/repo"):
+def patterns(r, L, exhaustive_upto, nrand, repo="/repo", full3=False):
     if L <= exhaustive_upto:
         return list(range(1 << L))
     s = {0, 1, 2, (1 << L) - 1, (1 << L) - 2, 1 << (L - 1), (1 << (L - 1)) - 1, (1 << (L - 1)) + 1}
@@ -21,7 +21,36 @@ def patterns(r, L, exhaustive_upto, nrand, repo="/repo"):
         s.add(((1 << L) - 1) ^ (1 << k))
     for _ in range(nrand):
         s.add(r.getrandbits(L))
+    s.update(structured_patterns(r, L, full3))
     return sorted(s)
+
+
+def structured_patterns(r, L, full3=False):
+    """patterns with few set bits, runs of ones, and their neighbours / complements / negatives: values at
+    carry, borrow and word boundaries (k * 2^j for small odd k), where arithmetic done in pieces goes wrong"""
+    M = (1 << L) - 1
+    base = set()
+    for a in range(L):
+        for b in range(a):
+            base.add((1 << a) | (1 << b))
+            base.add((1 << (a + 1)) - (1 << b))          # ones from bit b to bit a
+    three = []
+    for a in range(L):
+        for b in range(a):
+            for c in range(b):
+                three.append((1 << a) | (1 << b) | (1 << c))
+    if not full3 and len(three) > 3000:
+        three = r.sample(three, 3000)
+    # two runs of ones (a small sample: quadratic in the run ends)
+    for _ in range(200 if L > 16 else 0):
+        e = sorted(r.sample(range(L + 1), 4))
+        base.add(((1 << e[3]) - (1 << e[2])) | ((1 << e[1]) - (1 << e[0])))
+    out = set(three)
+    for v in base:
+        for w in (v, v - 1, v + 1, M ^ v, (M + 1 - v) & M):
+            if 0 <= w <= M:
+                out.add(w)
+    return out
 
 
 @register
@@ -51,7 +80,8 @@ class C08(Prop):
         for i in sch["df_order"]:
             d = sch["dfs"][i]
             L = d["len"]
-            for p in patterns(r, L, 16 if thorough else 10, 4000 if thorough else 150, ctx.repo):
+            for p in patterns(r, L, 16 if thorough else 10, 4000 if thorough else 150, ctx.repo,
+                              full3=getattr(ctx, "registered_tier", ctx.tier) == "thorough"):
                 yield (f"DFDEC {i} {L} {p}", "float" if d["dt"] in ("f32", "f64") else "int",
                        p != 0 and p != (1 << L) - 1)
         # the hand-written numeric fields (bias_m of 1059 / 1065 / 1230) are not df! rows: whole-message ops
